@@ -2,11 +2,11 @@
 // ASSUME: the number of elements of each of the three inner rings and the walk KIND are enumerated as separate solver queries (vf_param); ring start offsets, element values and jump positions are solver variables
 // ASSUME: inner containers are FixedSizeRing<int,3> in an arbitrary valid representation (start < 3 symbolic, wrap-around included), held in a plain array (outer iterator = pointer)
 // ASSUME: GALOIS_DIE ("invalid iterator") is redefined to a bare abort() (its iostream message formatting is cut); abort is an assertion: it must be unreachable for valid iterator pairs
-// OB: ob_twolevel_walk tier=quick unwind=9 timeout=120 params=3,3,3,2 bounds="TwoLevelIteratorA over 3 FixedSizeRing<int,3> with c0,c1,c2 in 0..2 elements (all 27 shapes incl. empty first/middle/last/all), symbolic ring starts; walk kind p3: 0 forward (forward tag) begin->end, 1 backward (bidirectional tag) end->begin" desc="two-level iterator visits exactly the elements of the inner ranges in order, in both directions"
+// OB: ob_twolevel_walk quick_limit=30 tier=quick unwind=9 timeout=120 params=3,3,3,2 bounds="TwoLevelIteratorA over 3 FixedSizeRing<int,3> with c0,c1,c2 in 0..2 elements (all 27 shapes incl. empty first/middle/last/all), symbolic ring starts; walk kind p3: 0 forward (forward tag) begin->end, 1 backward (bidirectional tag) end->begin" desc="two-level iterator visits exactly the elements of the inner ranges in order, in both directions"
 // OB: ob_twolevel_zigzag tier=thorough unwind=9 timeout=300 params=3,3,3 mem_gb=4 bounds="as ob_twolevel_walk, bidirectional tag: forward to a symbolic position, backward a symbolic distance, forward one step" desc="two-level iterator: mixed forward/backward stepping lands on the right elements"
-// OB: ob_twolevel_random tier=quick unwind=9 timeout=120 params=2,2,2,7,7 param_limit=120 bounds="(120 of the 392 combinations, VERIF_SEED) random-access TwoLevelIteratorA over 3 FixedSizeRing<int,3> with 0 or 2 elements each (8 shapes), ring starts fixed to 2,1,0 (symbolic starts make the jump loops branch on every comparison: path explosion in symbolic execution); positions i=p3, j=p4 concrete in 0..n: begin+i, begin+j, dereference, [], single step back, equality, order and difference of the two positions, end-begin, end-(begin+i)" desc="two-level iterator: forward random access agrees with indexing the concatenation"
+// OB: ob_twolevel_random quick_limit=40 tier=quick unwind=9 timeout=120 params=2,2,2,7,7 param_limit=120 bounds="(120 of the 392 combinations, VERIF_SEED) random-access TwoLevelIteratorA over 3 FixedSizeRing<int,3> with 0 or 2 elements each (8 shapes), ring starts fixed to 2,1,0 (symbolic starts make the jump loops branch on every comparison: path explosion in symbolic execution); positions i=p3, j=p4 concrete in 0..n: begin+i, begin+j, dereference, [], single step back, equality, order and difference of the two positions, end-begin, end-(begin+i)" desc="two-level iterator: forward random access agrees with indexing the concatenation"
 // OB: ob_twolevel_random_all tier=thorough unwind=9 timeout=120 params=2,2,2,7,7 bounds="as ob_twolevel_random, all 392 combinations" desc="two-level iterator: forward random access agrees with indexing the concatenation (all shapes and positions)"
-// OB: ob_twolevel_jump_back tier=quick unwind=9 timeout=120 params=2,2,2,7 bounds="as ob_twolevel_random; end - k and advance(end,-k) for concrete k=p3 in 0..n" desc="two-level iterator: jumping backwards by k lands on element n-k"
+// OB: ob_twolevel_jump_back quick_limit=28 tier=quick unwind=9 timeout=120 params=2,2,2,7 bounds="as ob_twolevel_random; end - k and advance(end,-k) for concrete k=p3 in 0..n" desc="two-level iterator: jumping backwards by k lands on element n-k"
 #include "vf.h"
 #include <cstdlib>
 #include "galois/FixedSizeRing.h"
